@@ -319,6 +319,37 @@ def fwdarg_job():
             "family": "fwdarg", "meta": {}}
 
 
+SHADOW_SRC = """
+from __future__ import annotations
+import dataclasses, typing
+class vm_c09_shadow:
+    # an outer class NAMED LIKE ITS MODULE: the qualified names of the classes inside start with the module's name
+    @dataclasses.dataclass
+    class Point:
+        x: int = 0
+    @dataclasses.dataclass
+    class Node:
+        value: int
+        kids: typing.List[vm_c09_shadow.Node]
+        at: typing.Optional[vm_c09_shadow.Point] = None
+@dataclasses.dataclass
+class Seg:
+    a: vm_c09_shadow.Point
+    b: vm_c09_shadow.Point
+@dataclasses.dataclass
+class Forest:
+    first: vm_c09_shadow.Node
+    rest: typing.List[vm_c09_shadow.Node]
+"""
+
+
+def shadow_job():
+    roots = ["Seg", "typing.List[Seg]", "Forest", "vm_c09_shadow.Node", "typing.Optional[vm_c09_shadow.Node]",
+             "typing.Tuple[vm_c09_shadow.Point, vm_c09_shadow.Point]", "typing.Dict[str, Forest]"]
+    return {"prog": {"src": SHADOW_SRC, "module": "vm_c09_shadow"}, "roots": [{"ty": ["expr", e], "kind": "shadow"} for e in roots],
+            "family": "outer-class-named-like-module", "meta": {}}
+
+
 def build_jobs(ctx):
     rng = ctx.rng
     jobs = []
@@ -375,6 +406,7 @@ def build_jobs(ctx):
             jobs.append({"prog": inp["prog"], "roots": [inp["root"]], "family": "focus", "meta": {}})
     jobs.append(generic_job())
     jobs.append(fwdarg_job())
+    jobs.append(shadow_job())
     return jobs
 
 
@@ -669,7 +701,10 @@ def spelling(T, seq, graph, refs, strict):
             if not same_upto_root(with_alarm(lambda: list(graph.static_order(al))), al):
                 bad.append("value alias of the root: sequence differs beyond the root label")
             done += ["newtype", "alias"]
-        if inspect.isclass(T) and "<locals>" not in T.__qualname__ and T.__module__ not in ("builtins",):
+        # (a TEXT that starts with the module's name is read as module-qualified: for a class whose outer class is named like the
+        #  module the text of its qualified name is ambiguous, so no text spellings of it are demanded)
+        if (inspect.isclass(T) and "<locals>" not in T.__qualname__ and T.__module__ not in ("builtins",)
+                and T.__qualname__.split(".")[0] != T.__module__):
             dotted = f"{T.__module__}.{T.__qualname__}"
             if list(graph.static_order(dotted)) != list(seq):
                 bad.append(f"static_order({dotted!r}) differs from static_order of the class")
